@@ -51,6 +51,9 @@ type BridgeCfg struct {
 	ExecFeePaid int64   // gas cost (wei) the relayer reports for an executed batch; 0 = 3
 	ParamsMod func(p *mhubtypes.Params) // applied to the genesis params last
 	ParamChanges [][2]string // governance parameter changes (key, JSON value) of the mhub2 subspace offered as op Param(i)
+	PayoutsMayFail bool // the configuration gives a reason for an executed batch's payouts to fail (token row gone, no Minter row)
+	GenesisMod func(g *hub.Genesis) // applied to the genesis last (a hand-written genesis file)
+	GenesisSeq map[string]uint64    // outgoing sequence counters of the chain the genesis file was taken from
 	Relist   []int // token rows a governance TokenInfosChangeProposal may remove from / put back on the list (op Relist)
 }
 
@@ -129,6 +132,9 @@ func (b *Bridge) Genesis() hub.Genesis {
 		g.Hub.ExternalStates = keep
 	}
 	g.Hub.Params = &p
+	if b.Cfg.GenesisMod != nil {
+		b.Cfg.GenesisMod(&g)
+	}
 	return g
 }
 
@@ -183,6 +189,7 @@ type bridgeGhost struct {
 	BatchSeq  map[string]uint64 // ... and the outgoing sequence it was created with (a batch is identified by both)
 	LastBatchNonce map[string]uint64
 	LastSeq   map[string]uint64
+	ImportedLow []string // imported pending batches whose new sequence number is not above the exported counter (reported by the first step)
 	Pending   []pendingEvent // events voted in the open block, applied at its EndBlock
 	Debt      map[string]string // denom -> rational string of recorded (known-finding) unbacked amount
 	TimedOutOK map[string]bool // batches whose timeout the hub may legitimately act on
@@ -280,7 +287,7 @@ func cloneS(m map[string]string) map[string]string {
 func (g *bridgeGhost) Clone() Ghost {
 	n := &bridgeGhost{EvNonce: cloneU(g.EvNonce), ExtHeight: cloneU(g.ExtHeight), Custody: cloneBig(g.Custody), LastExec: cloneU(g.LastExec),
 		Xfers: map[string]*xfer{}, ExecUnobs: append([]extBatch(nil), g.ExecUnobs...), BatchSeen: cloneB(g.BatchSeen), BatchSeq: cloneU(g.BatchSeq),
-		LastBatchNonce: cloneU(g.LastBatchNonce), LastSeq: cloneU(g.LastSeq), Pending: append([]pendingEvent(nil), g.Pending...),
+		LastBatchNonce: cloneU(g.LastBatchNonce), LastSeq: cloneU(g.LastSeq), ImportedLow: g.ImportedLow, Pending: append([]pendingEvent(nil), g.Pending...),
 		Debt: cloneS(g.Debt), TimedOutOK: cloneB(g.TimedOutOK), Withdrawn: cloneW(g.Withdrawn), ObsHeight: cloneU(g.ObsHeight), FakeAt: cloneU(g.FakeAt), RefundedHash: cloneB(g.RefundedHash), LagA: g.LagA, Delisted: cloneB(g.Delisted)}
 	for k, v := range g.Xfers {
 		c := *v
@@ -376,6 +383,23 @@ func (b *Bridge) NewGhost(in *hub.Instance) Ghost {
 	}
 	for _, c := range AllExtChains {
 		g.LastSeq[c] = outgoingSeq(in, c)
+		if s, ok := b.Cfg.GenesisSeq[c]; ok {
+			g.LastSeq[c] = s // what the imported pending transactions must stay above
+		}
+		// batches that came with the genesis file were not built here (no selection to judge); the sequence numbers InitGenesis gives
+		// them are judged by the first step's oracle
+		in.Hub.IterateOutgoingTxsByType(in.Ctx(), mhubtypes.ChainID(c), mhubtypes.BatchTxPrefixByte, func(_ []byte, o mhubtypes.OutgoingTx) bool {
+			bt := o.(*mhubtypes.BatchTx)
+			k := batchKey(c, bt)
+			g.BatchSeen[k], g.BatchSeq[k] = true, bt.Sequence
+			if bt.BatchNonce > g.LastBatchNonce[c] {
+				g.LastBatchNonce[c] = bt.BatchNonce
+			}
+			if bt.Sequence <= g.LastSeq[c] {
+				g.ImportedLow = append(g.ImportedLow, fmt.Sprintf("batch %s carries sequence %d, the chain's outgoing sequence counter stood at %d when the genesis file was written", k, bt.Sequence, g.LastSeq[c]))
+			}
+			return false
+		})
 	}
 	return g
 }
@@ -654,6 +678,19 @@ func (b *Bridge) Do(in *hub.Instance, gg Ghost, op engine.Op, st *engine.Step) {
 	preBal := b.balances(in)
 	ctx := in.Ctx()
 	_ = ctx
+	// contained failures the modules report at Error level: the payouts of an executed batch (commissions, reimbursement,
+	// fee refunds) are dropped as a whole when one of them cannot be made - with a listed token, prices and Minter keys in
+	// place nothing justifies that
+	in.ErrLog = nil
+	defer func() {
+		for _, m := range in.ErrLog {
+			if strings.Contains(m, "payouts of an executed batch failed") && !b.Cfg.PayoutsMayFail {
+				for _, p := range []string{"C13", "C19", "C01"} {
+					b.v(st, p, "payouts_of_executed_batch_failed", "batchTxExecuted", "%s", m)
+				}
+			}
+		}
+	}()
 	if g.LagA {
 		st.Count("__lagA", 1)
 		defer func() { delete(st.Counters, "__lagA") }()
@@ -1168,6 +1205,53 @@ func bridgeCfgFor(prop, tier string) (BridgeCfg, engine.Config) {
 	return cfg, ec
 }
 
+// execCases: configurations around the execution of a batch that are shared by C01, C04 and C13.
+//   - governance changes the token list while a batch of the token is pending (its row on the destination chain, or its
+//     Minter row - where commissions and fee payouts go - is taken off the list); the contract knows nothing of that and
+//     executes the batch
+//   - a token that is listed on ethereum and bsc only (it has no Minter row at all)
+//   - Minter knows no batch timeout: a Minter batch (it carries a nominal timeout all the same) is executed long after it
+func execCases(cfg BridgeCfg, ec engine.Config, extra ...string) []MultiCase {
+	gl := cfg
+	gl.PayoutsMayFail = true
+	gl.Relist = []int{0, 2}
+	gl.Tokens = stdTokens(18)
+	gl.Amounts, gl.Fees = []int64{1000}, []int64{7}
+	gl.Seeds = [][]engine.Op{append(append([]engine.Op{}, seedObserved...), engine.OpN("Send", "ethereum", "hub", 0, 0, 0), engine.OpN("ReqBatch", "ethereum", "hub"))}
+	gl.Ops = opsSet(append([]string{"Next", "Relist", "Exec", "ExtAdvance", "Deposit"}, extra...)...)
+	gl.SendChains = []string{"ethereum"}
+	gl.SendDenoms = []string{"hub", "eth"} // deposits of the other token move the observed height on
+	gl.DepChains = []string{"ethereum"}
+	gl.DepDests = []string{"hub"}
+	gl.DepFees = []int64{0}
+	nm := cfg
+	nm.PayoutsMayFail = true
+	nm.Tokens = append(append([]TokenRow{}, stdTokens(18)[:2]...), stdTokens(18)[3:]...)
+	nm.Amounts, nm.Fees = []int64{1000}, []int64{7}
+	nm.Seeds = [][]engine.Op{{engine.OpN("Deposit", "ethereum", "hub", "hub", 0, 0), engine.OpN("Next", 5)}}
+	nm.Ops = opsSet(append([]string{"Next", "Send", "ReqBatch", "Exec", "ExtAdvance", "Deposit"}, extra...)...)
+	nm.SendChains = []string{"ethereum"}
+	nm.SendDenoms = []string{"hub"}
+	nm.DepChains = []string{"ethereum"}
+	nm.DepDests = []string{"hub"}
+	nm.DepFees = []int64{0}
+	lm := cfg
+	lm.Tokens = stdTokens(18)
+	lm.Amounts, lm.Fees = []int64{1000}, []int64{7}
+	lm.Seeds = [][]engine.Op{append(append([]engine.Op{}, seedObserved...), engine.OpN("Send", "minter", "hub", 0, 0, 0), engine.OpN("Next", 5), engine.OpN("Next", 5))}
+	lm.Ops = opsSet(append([]string{"Next", "Send", "Exec", "ExtAdvance", "Deposit"}, extra...)...)
+	lm.SendChains = []string{"minter"}
+	lm.SendDenoms = []string{"hub"}
+	lm.DepChains = []string{"minter"}
+	lm.DepDests = []string{"hub"}
+	lm.DepFees = []int64{0}
+	return []MultiCase{
+		{Name: "a token without a Minter row", Spec: NewBridge(nm), Cfg: ec},
+		{Name: "token list changed by governance while a batch of the token is pending", Spec: NewBridge(gl), Cfg: ec},
+		{Name: "a Minter batch executed long after its nominal timeout", Spec: NewBridge(lm), Cfg: ec},
+	}
+}
+
 func bridgeAssumptions(cfg BridgeCfg) []string {
 	return []string{
 		fmt.Sprintf("closed system: %d user(s), 3 honest validators of equal power voting every external event in one block, chains %v, tokens %v", cfg.Users, cfg.SendChains, cfg.Tokens),
@@ -1219,10 +1303,10 @@ func init() {
 		fh.DepDests = []string{"hub"}
 		fh.DepFees = []int64{0}
 		fh.Seeds = [][]engine.Op{append(append([]engine.Op{}, seedObserved...), engine.OpN("Send", "ethereum", "hub", 0, 0, 0), engine.OpN("ReqBatch", "ethereum", "hub"))}
-		return []MultiCase{{Name: "oracle prices present", Spec: NewBridge(cfg), Cfg: ec}, {Name: "no oracle prices yet", Spec: NewBridge(np), Cfg: ec2},
+		return append([]MultiCase{{Name: "oracle prices present", Spec: NewBridge(cfg), Cfg: ec}, {Name: "no oracle prices yet", Spec: NewBridge(np), Cfg: ec2},
 			{Name: "a minority claims a far-ahead external height while a batch is pending", Spec: NewBridge(fh), Cfg: ec2},
 			{Name: "token taken off the originating chain's list while a transfer from there is pending", Spec: NewBridge(dl), Cfg: ec2},
-			{Name: "24-decimals token, fee-paying transfers from Minter, fee surplus at execution", Spec: NewBridge(hd), Cfg: ec2}}, bridgeAssumptions(cfg)
+			{Name: "24-decimals token, fee-paying transfers from Minter, fee surplus at execution", Spec: NewBridge(hd), Cfg: ec2}}, execCases(cfg, ec2, "NextTimeout", "ReqBatch", "Cancel")...), bridgeAssumptions(cfg)
 	}))
 	Register("C13", MultiRunner(func(tier string) ([]MultiCase, []string) {
 		cfg, ec := bridgeCfgFor("C13", tier)
@@ -1299,15 +1383,15 @@ func init() {
 		sh.SendDenoms = []string{"hub"}
 		sh.DepChains = []string{"ethereum"}
 		const weth, ust = "0xC02aaA39b223FE8D0A0e5C4F27eAD9083C756Cc2", "0xa47c8bf37f92aBed4A126BDA807A7b7498661acD"
-		return []MultiCase{{Name: "from observed heights", Spec: NewBridge(a), Cfg: ec}, {Name: "from two pending batches of different tokens on ethereum", Spec: NewBridge(bb), Cfg: ecb},
-			{Name: "from two batches of one token whose timeouts are not monotone", Spec: NewBridge(cc), Cfg: ecb},
-			{Name: "mixed-case contract ids (0xC02a.. = hub, 0xa47c.. = eth), three pending batches", Spec: NewBridge(mk(weth, ust)), Cfg: ecb},
-			{Name: "mixed-case contract ids (0xa47c.. = hub, 0xC02a.. = eth), three pending batches", Spec: NewBridge(mk(ust, weth)), Cfg: ecb},
-			{Name: "transfers whose commission is smaller than the number of validators", Spec: NewBridge(dd), Cfg: ecb},
-			{Name: "24-decimals token, fee-paying transfers from Minter, fee surplus at execution", Spec: NewBridge(hd), Cfg: ecb},
-			{Name: "6-decimals token, fee-paying transfers from Minter, fee surplus at execution", Spec: NewBridge(hd6), Cfg: ecb},
-			{Name: "gas coin price known, token price not attested yet", Spec: NewBridge(pp), Cfg: ecb},
-			{Name: "two withdrawals of one transaction, one cancelled, the other in a batch", Spec: NewBridge(sh), Cfg: ecb}}, bridgeAssumptions(cfg)
+		return append(append([]MultiCase{{Name: "from observed heights", Spec: NewBridge(a), Cfg: ec}}, execCases(cfg, ecb)...), MultiCase{Name: "from two pending batches of different tokens on ethereum", Spec: NewBridge(bb), Cfg: ecb},
+			MultiCase{Name: "from two batches of one token whose timeouts are not monotone", Spec: NewBridge(cc), Cfg: ecb},
+			MultiCase{Name: "mixed-case contract ids (0xC02a.. = hub, 0xa47c.. = eth), three pending batches", Spec: NewBridge(mk(weth, ust)), Cfg: ecb},
+			MultiCase{Name: "mixed-case contract ids (0xa47c.. = hub, 0xC02a.. = eth), three pending batches", Spec: NewBridge(mk(ust, weth)), Cfg: ecb},
+			MultiCase{Name: "transfers whose commission is smaller than the number of validators", Spec: NewBridge(dd), Cfg: ecb},
+			MultiCase{Name: "24-decimals token, fee-paying transfers from Minter, fee surplus at execution", Spec: NewBridge(hd), Cfg: ecb},
+			MultiCase{Name: "6-decimals token, fee-paying transfers from Minter, fee surplus at execution", Spec: NewBridge(hd6), Cfg: ecb},
+			MultiCase{Name: "gas coin price known, token price not attested yet", Spec: NewBridge(pp), Cfg: ecb},
+			MultiCase{Name: "two withdrawals of one transaction, one cancelled, the other in a batch", Spec: NewBridge(sh), Cfg: ecb}), bridgeAssumptions(cfg)
 	}))
 	Register("C15", MultiRunner(func(tier string) ([]MultiCase, []string) {
 		cfg, ec := bridgeCfgFor("C15", tier)
@@ -1321,7 +1405,7 @@ func init() {
 		ech.Deadline = ec.Deadline / 3
 		// a lagging validator (its last claimed nonce behind the observed one) and rotated delegate keys
 		lr := cfg
-		lr.Ops = opsSet("Next", "Deposit", "Lag", "Rotate", "ObserveSet0")
+		lr.Ops = opsSet("Next", "Deposit", "Lag", "Rotate", "ObserveSet0", "FakeHeight") // FakeHeight: one validator's claim of the next nonce is pending at the export
 		lr.DepDests = []string{"hub"}
 		lr.Seeds = [][]engine.Op{{engine.OpN("Deposit", "ethereum", "hub", "hub", 0, 0), engine.OpN("Next", 5)}}
 		// parameters at the edge of what their validators admit (governance can set them): zero timeouts and windows, no chain
@@ -1406,7 +1490,36 @@ func init() {
 		ecb2 := ec
 		ecb2.MaxDepth = 3
 		ecb2.Deadline = ec.Deadline / 2
+		// a chain started from a genesis file that carries pending batches (InitGenesis accepts them; the module's own export
+		// never writes them): Minter's outgoing sequence counter stood at 7 when the file was written
+		gi := cfg
+		gi.Ops = opsSet("Next", "Send", "ReqBatch")
+		gi.SendChains = []string{"minter"}
+		gi.Fees = []int64{7}
+		gi.GenesisSeq = map[string]uint64{"minter": 7}
+		gi.GenesisMod = func(g *hub.Genesis) {
+			for _, es := range g.Hub.ExternalStates {
+				if es.ChainId != "minter" {
+					continue
+				}
+				es.Sequence, es.LastOutgoingBatchTxNonce = 7, 2
+				for i, tok := range []string{"1", "12"} {
+					ste := &mhubtypes.SendToExternal{Id: uint64(i + 1), Sender: hub.User("u1").String(), ChainId: "minter", ExternalRecipient: hub.HexAddr("imp"),
+						Token: mhubtypes.ExternalToken{Amount: sdk.NewInt(990), ExternalTokenId: tok}, Fee: mhubtypes.ExternalToken{Amount: sdk.NewInt(7), ExternalTokenId: tok},
+						ValCommission: mhubtypes.ExternalToken{Amount: sdk.NewInt(10), ExternalTokenId: tok}, TxHash: fmt.Sprintf("IMPORTED%d", i), RefundAddress: hub.User("u1").String(), RefundChainId: "hub", CreatedAt: 1}
+					a, err := mhubtypes.PackOutgoingTx(&mhubtypes.BatchTx{BatchNonce: uint64(i + 1), ExternalTokenId: tok, Transactions: []*mhubtypes.SendToExternal{ste}, Height: 1, Sequence: uint64(4 + 2*i)})
+					if err != nil {
+						panic(err)
+					}
+					es.OutgoingTxs = append(es.OutgoingTxs, a)
+				}
+			}
+		}
+		ecg := ec
+		ecg.MaxDepth = 3
+		ecg.Deadline = ec.Deadline / 3
 		return []MultiCase{{Name: "pools and permissionless requests", Spec: NewBridge(cfg), Cfg: ec}, {Name: "batches timing out and being rebuilt", Spec: NewBridge(to), Cfg: ect},
+			{Name: "started from a genesis file with two pending Minter batches (sequence counter 7)", Spec: NewBridge(gi), Cfg: ecg},
 			{Name: "two withdrawals of one transaction, one cancelled", Spec: NewBridge(sh), Cfg: ecs},
 			{Name: "a pool of more than 100 transfers of one token, amounts differing by six orders of magnitude", Spec: NewBridge(big), Cfg: ecb2}}, bridgeAssumptions(cfg)
 	}))
@@ -1431,8 +1544,12 @@ func init() {
 			dl.Seeds = [][]engine.Op{{}, {engine.OpN("Next", 5)}, pend, append(append([]engine.Op{}, pend...), engine.OpN("Relist", 0))}
 			ecd := ec
 			ecd.Deadline = ec.Deadline / 2
-			return []MultiCase{{Name: "bridge histories", Spec: NewBridge(cfg), Cfg: ec},
-				{Name: "token taken off the originating chain's list while a transfer from there is pending", Spec: NewBridge(dl), Cfg: ecd}}, bridgeAssumptions(cfg)
+			cases := []MultiCase{{Name: "bridge histories", Spec: NewBridge(cfg), Cfg: ec},
+				{Name: "token taken off the originating chain's list while a transfer from there is pending", Spec: NewBridge(dl), Cfg: ecd}}
+			if prop == "C04" {
+				cases = append(cases, execCases(cfg, ecd, "NextTimeout", "ReqBatch")...)
+			}
+			return cases, bridgeAssumptions(cfg)
 		}))
 	}
 }
